@@ -199,6 +199,35 @@ class C18:
             if not good and got == ("attr", SELF, "audio_dir"):
                 good = any(e.term[1] == ("attr", SELF, "audio_dir") and e.term[2] == ("param", "audio_dir") and e.idx < 10 ** 9
                            for e in s.of("store"))
+            # the constructor that is called (the first of the MRO) must hand its audio_dir up to the one that builds the recording
+            # adapter: every super().__init__(...) on the way binds the next constructor's audio_dir to this one's
+            if good and ok_accept and chain and chain[0].qual != w.owner.qual:
+                for k_, c in enumerate(chain):
+                    if c.qual == w.owner.qual:
+                        break
+                    s_ = ctx.summ.of_node(c.module, c.methods["__init__"][-1], f"{c.qual}.__init__", c)
+                    nxt = chain[k_ + 1] if k_ + 1 < len(chain) else None
+                    fw = [e for e in s_.calls if e.term[1][0] == "attr" and e.term[1][2] == "__init__" and e.term[1][1][0] == "call"
+                          and e.term[1][1][1] == ("builtin", "super")]
+                    if nxt is None or len(fw) != 1:
+                        ctx.undec("R18.1", site, f"cannot follow the constructor chain of {col.ci.name} to {w.owner.name}.__init__")
+                        good = None
+                        break
+                    ns_ = ctx.summ.of_node(nxt.module, nxt.methods["__init__"][-1], f"{nxt.qual}.__init__", nxt)
+                    b_, _, sp_, _ = bind_args(fw[0].term, ns_.params[1:])
+                    up = b_.get("audio_dir")
+                    through_kwargs = s_.kwarg and any(k == "**" and v == ("param", "**" + s_.kwarg) for k, v in fw[0].term[3]) and "audio_dir" not in s_.params
+                    kept_ = up == ("attr", SELF, "audio_dir") and any(e.term[1] == ("attr", SELF, "audio_dir") and e.term[2] == ("param", "audio_dir") and e.idx < fw[0].idx
+                                                                     for e in s_.of("store"))
+                    if not (up == ("param", "audio_dir") or through_kwargs or kept_):
+                        ctx.bad("R18.1", c.module.relpath, f"{c.name}.__init__", f"super().__init__(... audio_dir={show(up) if up else 'missing'})",
+                                f"{c.name}.__init__ takes audio_dir but hands {show(up) if up else 'nothing'} to {nxt.name}.__init__, which builds the "
+                                f"recording adapter: recordings of {col.row} are stored with absolute paths / loaded without relocation",
+                                fw[0].lineno)
+                        good = None
+                        break
+            if good is None:
+                continue
             if good and ok_accept:
                 ctx.ok("R18.1", f"{w.owner.module.relpath}:{w.node.lineno} {col.ci.name}.__init__",
                        f"{col.row}: audio_dir reaches RecordingAdapter")
